@@ -334,6 +334,11 @@ def run(ctx):
         if body.name != PI + 'new' and q.stmt_aggs(body, 'asefile::parse::ParseInfo'):
             ctx.inst('S4', body.name, False, 'constructs a ParseInfo outside ParseInfo::new', body.span, key=body.name + '|S4|extra')
 
+    # the k-th record after a tags chunk goes to the k-th tag *the chunk lists*: nothing reorders the tag vector between decoding and
+    # attachment (seed C10-j sorted the tags by start frame in add_tags)
+    import C01 as _c01
+    _c01.no_reordering(ctx, 'S2', elem_types=('tags::Tag',))
+
     # ---------- S8: entities are born without a record ("entities without a record report none")
     # every aggregate with a user_data slot is built with None there, or moves the slot of the value it replaces (validation);
     # a record fabricated from anything else (seed C10-g: the legacy tag colour) is reported by the accessor as user data
